@@ -39,6 +39,18 @@ MIN_PER_RULE = {'C06.1': 3, 'C06.2': 3, 'C06.3': 4, 'C06.4': 4, 'C06.5': 5,
                 'C06.6': 2, 'C06.7': 1}
 
 
+def _yield_loops(graph):
+    """The for-loops of a generator whose body yields."""
+    out = []
+    for node in graph.nodes:
+        if node.kind != 'for':
+            continue
+        if any(isinstance(s, ast.Yield) for stmt in node.ast.body
+               for s in ast.walk(stmt)):
+            out.append(node)
+    return out
+
+
 def _generators(ctx):
     alloc = ctx.index.get_class(K.SCHED, 'Allocation')
     gens = [f for f in alloc.live_methods() if any(
@@ -70,6 +82,15 @@ def _sort_key(ctx, priv):
         rets = [s for s in K.walk_no_nested(keyfunc.node)
                 if isinstance(s, ast.Return)]
         tup = rets[0].value if rets else None
+    elif isinstance(keyf, (ast.Name, ast.Attribute)) and (
+            ctx.index.resolve_expr(priv.module, keyf) or ('', 0))[0] == \
+            'func':
+        # a module-level / static key function
+        keyfunc = ctx.index.resolve_expr(priv.module, keyf)[1]
+        param = keyfunc.params()[-1] if keyfunc.params() else None
+        rets = [s for s in K.walk_no_nested(keyfunc.node)
+                if isinstance(s, ast.Return)]
+        tup = rets[0].value if len(rets) == 1 else None
     elif isinstance(keyf, ast.Lambda):
         param = keyf.args.args[0].arg
         tup = keyf.body
@@ -110,41 +131,116 @@ def _sort_key(ctx, priv):
 
 
 def _rank(ctx, priv):
+    """Path-sensitive: product of the generator's CFG with
+    (rank value in {unset, unplaced, base, boosted, other}) x
+    (cap in {T, F, ?}) x (boost in {T, F, ?}); at the construction of the
+    entry the rank must be the one the two tests call for."""
     nz = N.Normaliser()
     graph = ctx.cfg(priv)
-    facts = N.must_facts(graph, nz)
     cap = N.cmp_atom(ast.Name(id='util_after'), '<=',
                      ast.parse('self.max_utilization - 1',
                                mode='eval').body)
     boost = N.cmp_atom(ast.Name(id='util_before'), '<',
                        ast.Constant(value=0))
-    seen = {'unplaced': 0, 'base': 0, 'boost': 0}
-    for node in graph.nodes:
-        if node.kind != 'stmt':
-            continue
-        stmt = node.ast
-        if isinstance(stmt, ast.Assign) and N.txt(stmt.targets[0]) == 'rank':
-            if N.txt(stmt.value) == '_UNPLACED_RANK':
-                seen['unplaced'] += 1
-                ctx.ob('C06.2', priv, node, N.negate(cap) in facts[node],
-                       'unplaced rank exactly when not (%s)' % N.show(cap))
-            elif N.txt(stmt.value) == 'self.rank':
-                seen['base'] += 1
-                ctx.ob('C06.2', priv, node, cap in facts[node],
-                       'allocation rank when %s' % N.show(cap))
-            else:
-                ctx.fail('C06.2', priv, node, 'rank assigned from an '
-                                              'unexpected source')
-        if isinstance(stmt, ast.AugAssign) and N.txt(stmt.target) == 'rank':
-            seen['boost'] += 1
-            ok = isinstance(stmt.op, ast.Sub) and \
-                N.txt(stmt.value) == 'self.rank_adjustment' and \
-                boost in facts[node] and cap in facts[node]
-            ctx.ob('C06.2', priv, node, ok,
-                   'boost subtracts rank_adjustment exactly when %s (within '
-                   'the cap)' % N.show(boost))
-    ctx.require(all(seen.values()), 'rank assignments in %s: %s' % (
-        priv.qualname, seen))
+    lin_base = N.linear(ast.parse('self.rank', mode='eval').body)
+    lin_boost = N.linear(ast.parse('self.rank - self.rank_adjustment',
+                                   mode='eval').body)
+    lin_unpl = N.linear(ast.Name(id='_UNPLACED_RANK'))
+    loops = _yield_loops(graph)
+    head = K.one(loops, 'queue loop of %s' % priv.qualname)
+
+    def classify(expr, cur):
+        try:
+            lin = N.linear(expr)
+        except Exception:      # pylint: disable=broad-except
+            return 'other'
+        if lin == lin_unpl:
+            return 'unplaced'
+        if lin == lin_base:
+            return 'base'
+        if lin == lin_boost:
+            return 'boosted'
+        if cur == 'base' and lin == N.linear(ast.parse(
+                'rank - self.rank_adjustment', mode='eval').body):
+            return 'boosted'
+        return 'other'
+
+    def step(edge, state):
+        if edge.kind == 'exc':
+            return []
+        rank, capv, boostv = state
+        node = edge.src
+        if node is head:
+            if edge.kind != 'iter':
+                return []
+            return [('unset', '?', '?')]
+        if node.kind == 'test' and edge.kind in ('true', 'false'):
+            for atom in nz.facts_of_edge(edge):
+                if atom == cap:
+                    capv = 'T'
+                elif atom == N.negate(cap):
+                    capv = 'F'
+                elif atom == boost:
+                    boostv = 'T'
+                elif atom == N.negate(boost):
+                    boostv = 'F'
+        if node.kind == 'stmt':
+            stmt = node.ast
+            if isinstance(stmt, ast.Assign):
+                for tgt in stmt.targets:
+                    names = [n.id for n in ast.walk(tgt)
+                             if isinstance(n, ast.Name)]
+                    if 'util_after' in names:
+                        capv = '?'
+                    if 'util_before' in names:
+                        boostv = '?'
+                    if N.txt(tgt) == 'rank':
+                        rank = classify(stmt.value, rank)
+            elif isinstance(stmt, ast.AugAssign) and \
+                    N.txt(stmt.target) == 'rank':
+                if isinstance(stmt.op, ast.Sub) and rank == 'base' and \
+                        N.txt(stmt.value) == 'self.rank_adjustment':
+                    rank = 'boosted'
+                else:
+                    rank = 'other'
+        return [(rank, capv, boostv)]
+    reached = C.explore(graph, [('unset', '?', '?')], step, start=head)
+    builds = [n for n in graph.nodes if n.kind == 'stmt' and
+              isinstance(n.ast, ast.Assign) and
+              isinstance(n.ast.value, ast.Tuple) and n.ast.value.elts and
+              N.txt(n.ast.value.elts[0]) == 'rank']
+    builds += [n for n in graph.nodes if n.kind == 'stmt' and any(
+        isinstance(s, ast.Yield) and isinstance(s.value, ast.Tuple) and
+        s.value.elts and N.txt(s.value.elts[0]) == 'rank'
+        for s in ast.walk(n.ast))]
+    ctx.require(builds, 'construction of the queue entry (rank first) in '
+                        '%s' % priv.qualname)
+    want = {('F', 'T'): 'unplaced', ('F', 'F'): 'unplaced',
+            ('F', '?'): 'unplaced', ('T', 'T'): 'boosted',
+            ('T', 'F'): 'base'}
+    for build in builds:
+        states = sorted(set(st for (node, st) in reached if node is build))
+        ctx.require(states, 'entry construction reachable')
+        seen = set()
+        for rank, capv, boostv in states:
+            expect = want.get((capv, boostv))
+            ok = expect is not None and rank == expect
+            seen.add(rank)
+            path = None
+            if not ok:
+                path = K.describe(C.witness(reached,
+                                            (build, (rank, capv, boostv))))
+            ctx.ob('C06.2', priv, build, ok,
+                   'rank is %s when util_after <= max_utilization - 1 is %s '
+                   'and util_before < 0 is %s (unplaced iff over the cap; '
+                   'the adjustment exactly within the reservation)' % (
+                       rank, capv, boostv), path=path,
+                   construct='rank decision cap=%s boost=%s' % (capv,
+                                                                boostv))
+        ctx.ob('C06.2', priv, build,
+               {'unplaced', 'base', 'boosted'} <= seen,
+               'all three ranks occur: %s' % sorted(seen),
+               construct='rank cases')
 
 
 def _sentinel(ctx, priv, merged):
@@ -170,41 +266,96 @@ def _sentinel(ctx, priv, merged):
                construct='sentinel fields in %s' % func.name)
 
 
+def _entry_tuple(ctx, func):
+    """The tuple display a generator yields (directly or through one
+    local)."""
+    yields = [s for s in K.walk_no_nested(func.node)
+              if isinstance(s, ast.Yield)]
+    tups = []
+    for yld in yields:
+        val = yld.value
+        if isinstance(val, ast.Name):
+            defs = [s.value for s in K.walk_no_nested(func.node)
+                    if isinstance(s, ast.Assign) and
+                    N.txt(s.targets[0]) == val.id]
+            val = defs[0] if len(defs) == 1 else None
+        tups.append(val if isinstance(val, ast.Tuple) else None)
+    ctx.ob('C06.4', func, yields[0] if yields else None,
+           bool(tups) and all(t is not None for t in tups) and
+           len(set(N.txt(t) for t in tups)) == 1,
+           'the generator yields one entry tuple',
+           construct='yield entry')
+    return tups[0] if tups and tups[0] is not None else None
+
+
 def _layout(ctx, priv, merged):
-    layouts = {}
-    for func in (priv, merged):
-        for sub in K.walk_no_nested(func.node):
-            if isinstance(sub, ast.Assign) and \
-                    N.txt(sub.targets[0]) == 'entry' and \
-                    isinstance(sub.value, ast.Tuple):
-                layouts[func.name] = [N.txt(e) for e in sub.value.elts]
-        yields = [s for s in K.walk_no_nested(func.node)
-                  if isinstance(s, ast.Yield)]
-        ctx.ob('C06.4', func, yields[0] if yields else None,
-               bool(yields) and all(N.txt(y.value) == 'entry'
-                                    for y in yields),
-               'the generator yields the entry tuple',
-               construct='yield entry')
-    ctx.require(len(layouts) == 2, 'entry tuples of both generators')
-    lp, lm = layouts[priv.name], layouts[merged.name]
-    names = ['rank', 'util_before', 'util_after', 'pending']
-    ok = len(lp) == len(lm) == 6 and lp[:4] == names and lm[:4] == names \
-        and lp[-1] == 'app' and lm[-1] == 'app' and \
-        lp[4].endswith('global_order') and lm[4] in ('order',)
-    ctx.ob('C06.4', merged, None, ok,
-           'both generators yield (rank, util_before, util_after, pending, '
-           'order, app): %s / %s' % (lp, lm), construct='entry layout')
+    ptup = _entry_tuple(ctx, priv)
+    mtup = _entry_tuple(ctx, merged)
+    ctx.require(ptup is not None and mtup is not None,
+                'entry tuples of both generators')
+    ploop = K.one(_yield_loops(ctx.cfg(priv)), 'queue loop of the private '
+                                               'generator')
+    appv = sorted(N.for_targets(ploop))[-1]
+    pel = ptup.elts
+    placed_first = False
+    if len(pel) == 6:
+        third = K.rexpr(priv, pel[3])
+        placed_first = isinstance(third, ast.IfExp) and \
+            N.txt(third.test) == '%s.server' % appv and \
+            isinstance(third.body, ast.Constant) and \
+            isinstance(third.orelse, ast.Constant) and \
+            third.body.value < third.orelse.value
+    okp = len(pel) == 6 and isinstance(pel[0], ast.Name) and \
+        placed_first and \
+        K.rtxt(priv, pel[4]) == '%s.global_order' % appv and \
+        N.txt(pel[5]) == appv
     # destructuring in the merge
+    targets = None
     for sub in K.walk_no_nested(merged.node):
         if isinstance(sub, ast.Assign) and isinstance(sub.targets[0],
                                                       ast.Tuple) and \
-                N.txt(sub.value) == 'item':
-            got = [N.txt(e) for e in sub.targets[0].elts]
-            ok = len(got) == 6 and got[0] == 'rank' and got[3] == 'pending' \
-                and got[4] == 'order' and got[5] == 'app'
-            ctx.ob('C06.4', merged, sub, ok,
-                   'merge destructures the private layout position by '
-                   'position: %s' % got)
+                isinstance(sub.value, ast.Name):
+            mloop = K.one(_yield_loops(ctx.cfg(merged)),
+                          'queue loop of the merging generator')
+            if sub.value.id in N.for_targets(mloop):
+                targets = [N.txt(e) for e in sub.targets[0].elts]
+    mel = [N.txt(e) for e in mtup.elts]
+    okm = targets is not None and len(targets) == 6 and len(mel) == 6 and \
+        all(mel[i] == targets[i] for i in (0, 3, 4, 5)) and \
+        not targets[3].startswith('_') and not targets[4].startswith('_')
+    ctx.ob('C06.4', merged, None, okp and okm,
+           'both generators yield (rank, util_before, util_after, pending, '
+           'order, app): private %s; the merge destructures %s and yields '
+           '%s (positions 0, 3, 4, 5 passed through)' % (
+               [N.txt(e) for e in pel], targets, mel),
+           construct='entry layout')
+    # positions 1 and 2: utilisation before / after this entry - position
+    # 2 is computed in the iteration, position 1 takes its value for the
+    # next one
+    for func, tup in ((priv, ptup), (merged, mtup)):
+        names = [N.txt(e) for e in tup.elts]
+        okrot = False
+        if len(names) == 6:
+            loop = K.one(_yield_loops(ctx.cfg(func)), 'queue loop')
+            rot = [s for stmt in loop.ast.body for s in ast.walk(stmt)
+                   if isinstance(s, ast.Assign) and
+                   N.txt(s.targets[0]) == names[1] and
+                   N.txt(s.value) == names[2]]
+            comp = [s for stmt in loop.ast.body for s in ast.walk(stmt)
+                    if isinstance(s, ast.Assign) and
+                    N.txt(s.targets[0]) == names[2] and
+                    isinstance(s.value, ast.Call) and
+                    'utilization' in N.txt(s.value.func)]
+            okrot = bool(rot) and bool(comp) and names[1] != names[2]
+        ctx.ob('C06.4', func, tup, okrot,
+               'position 2 holds the utilisation computed for this entry, '
+               'position 1 the one carried over from the previous entry: %s'
+               % names[1:3], construct='utilisation positions in %s' %
+               func.name)
+    ctx.ob('C06.4', merged, None, targets is not None and
+           len(targets) == 6,
+           'merge destructures the private layout position by position: '
+           '%s' % targets, construct='merge destructuring')
     # consumers
     cell = ctx.index.get_class(K.SCHED, 'Cell')
     rec = cell.methods.get('_record_rank_and_util')
@@ -234,7 +385,7 @@ def _layout(ctx, priv, merged):
 def _exactly_once(ctx, priv, merged):
     for func in (priv, merged):
         graph = ctx.cfg(func)
-        loops = [n for n in graph.nodes if n.kind == 'for']
+        loops = _yield_loops(graph)
         head = K.one(loops, 'queue loop of %s' % func.qualname)
 
         def yields(node):
@@ -265,41 +416,89 @@ def _exactly_once(ctx, priv, merged):
                'end of an iteration: %s)' % sorted(counts),
                construct='one yield per element in %s' % func.name)
     # merged queue covers every sub-allocation and the private queue
-    src = ast.unparse(merged.node)
-    comp = None
-    for sub in K.walk_no_nested(merged.node):
-        if isinstance(sub, ast.Assign) and N.txt(sub.targets[0]) == 'queues' \
-                and isinstance(sub.value, ast.ListComp):
-            comp = sub.value
-    ok = comp is not None and not comp.generators[0].ifs and \
-        'self.sub_allocations' in N.txt(comp.generators[0].iter) and \
-        'utilization_queue' in N.txt(comp.elt)
-    ctx.ob('C06.5', merged, comp, ok,
-           'one sub-queue per sub-allocation, unfiltered',
-           construct='queues = [sub.utilization_queue(...) for all subs]')
-    ctx.ob('C06.5', merged, None,
-           'queues.append(self.%s())' % priv.name in src and
-           'heapq.merge(*queues)' in src,
-           'the private queue is merged with the sub-queues '
-           '(heapq.merge(*queues))', construct='merge inputs')
+    loops = _yield_loops(ctx.cfg(merged))
+    head = K.one(loops, 'queue loop of %s' % merged.qualname)
+    it = K.rexpr(merged, head.ast.iter)
+    is_merge = isinstance(it, ast.Call) and \
+        K.callee_text(it) == 'heapq.merge' and len(it.args) == 1 and \
+        isinstance(it.args[0], ast.Starred) and not it.keywords
+    ctx.ob('C06.5', merged, head.ast, is_merge,
+           'the merged queue iterates heapq.merge(*<queues>): an order-'
+           'preserving merge that yields every element of every input '
+           '(found %s)' % N.txt(it), construct='merge inputs')
+    if is_merge:
+        qname = N.txt(it.args[0].value)
+        parts = K.list_contributions(merged, qname)
+        subs, own, bad = [], [], []
+        for part in parts:
+            if 'other' in part:
+                bad.append(N.txt(part['other'])[:60])
+                continue
+            elt = part['elt']
+            if isinstance(elt, ast.Call) and \
+                    K.is_meth(elt, merged.name) and \
+                    len(part['domains']) == 1 and \
+                    N.txt(K.recv(elt)) == N.txt(part['domains'][0][0]) and \
+                    N.txt(part['domains'][0][1]) in (
+                        'six.itervalues(self.sub_allocations)',
+                        'self.sub_allocations.values()') and \
+                    not part['conditional']:
+                subs.append(part)
+            elif isinstance(elt, ast.Call) and K.is_meth(elt, priv.name) \
+                    and K.recv_text(elt) == 'self' and \
+                    not part['domains'] and not part['conditional']:
+                own.append(part)
+            else:
+                bad.append(N.txt(part['node'])[:60])
+        ctx.ob('C06.5', merged, subs[0]['node'] if subs else None,
+               len(subs) == 1 and not bad,
+               'one sub-queue per sub-allocation, unfiltered%s' % (
+                   ' - other contributions: %s' % bad if bad else ''),
+               construct='queues = [sub.utilization_queue(...) for all '
+                         'subs]')
+        ctx.ob('C06.5', merged, own[0]['node'] if own else None,
+               len(own) == 1 and not bad,
+               "the allocation's own queue is one of the merge inputs",
+               construct='own queue merged')
     cell = ctx.index.get_class(K.SCHED, 'Cell')
     sa = cell.methods.get('schedule_alloc')
     ctx.require(sa is not None, 'Cell.schedule_alloc')
-    okq = False
-    for sub in K.walk_no_nested(sa.node):
-        if isinstance(sub, ast.Assign) and N.txt(sub.targets[0]) == 'queue' \
-                and isinstance(sub.value, ast.ListComp):
-            comp = sub.value
-            okq = not comp.generators[0].ifs and \
-                N.txt(comp.elt) in ('item[-1]', 'item[5]')
-            ctx.ob('C06.5', sa, sub, okq,
-                   'schedule_alloc maps the queue to instances without a '
-                   'filter')
-    ctx.require(okq or True, 'queue comprehension')
-    ssrc = ast.unparse(sa.node)
+    placing = [c for c in K.calls(sa.node)
+               if K.is_meth(c, '_find_placements') and c.args]
+    ctx.require(len(placing) == 1, '_find_placements call in schedule_alloc')
+    qarg = placing[0].args[0]
+    ctx.require(isinstance(qarg, ast.Name), 'queue passed to the placement '
+                                            'loop is a local')
+
+    def from_merged(expr, depth=0):
+        """expr denotes all items of allocation.<merged>(...) in order."""
+        expr = K.rexpr(sa, expr)
+        if isinstance(expr, ast.Call) and K.callee_text(expr) == 'list' \
+                and len(expr.args) == 1:
+            return from_merged(expr.args[0], depth + 1)
+        if isinstance(expr, ast.Call) and K.is_meth(expr, merged.name):
+            return True
+        if isinstance(expr, ast.Name) and depth < 3:
+            parts = K.list_contributions(sa, expr.id)
+            return len(parts) == 1 and 'other' not in parts[0] and \
+                not parts[0]['conditional'] and \
+                len(parts[0]['domains']) == 1 and \
+                not parts[0].get('sorted') and (
+                    parts[0]['elt'] is None or
+                    N.txt(parts[0]['elt']) == N.txt(parts[0]['var'])) and \
+                from_merged(parts[0]['domains'][0][1], depth + 1)
+        return False
+    parts = K.list_contributions(sa, qarg.id)
+    okq = len(parts) == 1 and 'other' not in parts[0] and \
+        not parts[0]['conditional'] and len(parts[0]['domains']) == 1 and \
+        parts[0]['elt'] is not None and parts[0]['var'] is not None and \
+        N.txt(parts[0]['elt']) in ('%s[-1]' % N.txt(parts[0]['var']),
+                                   '%s[5]' % N.txt(parts[0]['var']))
+    ctx.ob('C06.5', sa, parts[0].get('node') if parts else None, okq,
+           'schedule_alloc maps the queue to instances without a filter',
+           construct='queue = [item[-1] for item in util_queue]')
     ctx.ob('C06.5', sa, None,
-           'list(allocation.%s(' % merged.name in ssrc and
-           '_find_placements(queue' in ssrc,
+           okq and from_merged(parts[0]['domains'][0][1]),
            'the placement loop receives the whole merged queue in order',
            construct='schedule_alloc data flow')
 
